@@ -6,7 +6,6 @@ V = os.path.dirname(os.path.dirname(os.path.abspath(__file__)))
 
 NA = {
  'C04': 'Taylor coefficients of an amplification factor / RK orders are numeric values of qmat tableaux; no source shape implies them (DESIGN.md §5)',
- 'C17': 'identities between spectral operator matrices over N and intervals are numeric (DESIGN.md §5)',
 }
 UNDER = 'static checker for this property not armed yet in this round (design in DESIGN.md §4)'
 
@@ -53,6 +52,9 @@ ARMED = {
  'C16': ('open-mode discipline of every open() in fieldsIO (append-only, one truncating open), overwrite guard dominating it, header/record dtype sequences of writer and reader agree, every record read is bounded by the complete-record count',
          'not decided: bit exactness of numpy I/O, the crash-point quantifier itself (fault injection), tiling of BlockDecomposition (arithmetic identity).',
          'call-site fact tables (modes, dtypes, counts) + CFG dominance', '4 C16'),
+ 'C17': ('ONLY clauses whose truth is in the shape of the code: per-axis loops carry their result from axis to axis (the rule found and repaired a real defect in ChebychevHelper.itransform), forward/backward transform pairing (DCT type, default norm, multiply/divide by one normalisation; FFT normalisation over the same axes), where the interval map enters (grid, derivatives / fac^p, ultraspherical integral * fac, wavenumbers * 2 pi / L), Kronecker assembly of n-d operators in axis order and the four n-d builders as products of per-axis expansions',
+         'NOT decided (numeric): agreement of every operator matrix with exact polynomial / Fourier calculus for all N, mutual inverse of conversions, sparse-vs-dense agreement, padding and mpi4py-fft paths. One defect found by C17.R1 was repaired (fix bb05198).',
+         'loop-carried def-use analysis on per-axis loops, local-inlining normal form for operator formulas, sibling cross-check of the n-d fold builders', '10 C17'),
  'C18': ('assembly clause only: positional pairing of weight k with offset k in the periodic arm (plus the general values-used-as-positions contradiction rule), wrap diagonals, parallel sort of weights and offsets, Kronecker-sum arity, keyword call sites',
          'not decided: the stencil weights and boundary closures (exact rational arithmetic is evaluation, not shape). One defect found by the rule was repaired (fix 1ce7787).',
          'term normaliser + contradiction pattern', '4 C18'),
